@@ -397,7 +397,15 @@ def main(tier):
     behs.sort(key=lambda b: json.dumps(b["trail"], sort_keys=True))
     generated_behaviours = len(behs)
     CAP = 500000
-    if len(behs) > CAP:
+    if tier == "quick":
+        # end states with an unvalidated external change are not compared with a fresh project (they only
+        # bind the model of the file system): a seeded sample of them is enough on every change
+        rnd = common.rng("c13")
+        other = [b for b in behs if not b["quiet"]]
+        rnd.shuffle(other)
+        behs = [b for b in behs if b["quiet"]] + other[:8000]
+        behs.sort(key=lambda b: json.dumps(b["trail"], sort_keys=True))
+    elif len(behs) > CAP:
         # only quiet end states are compared with a fresh project: they go first; of the rest (which only
         # bind the model of the file system) and of the overflow a seeded sample
         rnd = common.rng("c13")
